@@ -21,6 +21,7 @@ type SolveResult struct {
 	File    string
 	Bytes   int
 	Answers map[string]string
+	Retried bool // no solver answered in the first round; decided (or not) in a second round with another seed and twice the budget
 }
 
 type SolverCfg struct {
@@ -125,16 +126,20 @@ func firstLine(s string) string {
 	return ""
 }
 
-func (d *Discharger) runSolver(ctx context.Context, s SolverCfg, file string, timeoutS int) (string, string, float64) {
+func (d *Discharger) runSolver(ctx context.Context, s SolverCfg, file string, timeoutS int, seed int) (string, string, float64) {
 	d.sem <- struct{}{}
 	defer func() { <-d.sem }()
 	if ctx.Err() != nil {
 		return "cancelled", "", 0
 	}
-	args := s.Args(file, timeoutS, d.Seed)
-	cctx, cancel := context.WithTimeout(ctx, time.Duration(timeoutS+3)*time.Second)
+	// The budget is CPU time (ulimit -t), so that a verdict does not depend on how loaded the machine is;
+	// the wall-clock limits given to the solver and to the context are only a backstop.
+	wall := 4*timeoutS + 5
+	args := s.Args(file, wall, seed)
+	cctx, cancel := context.WithTimeout(ctx, time.Duration(wall+3)*time.Second)
 	defer cancel()
-	cmd := exec.CommandContext(cctx, args[0], args[1:]...)
+	sh := fmt.Sprintf("ulimit -t %d; exec \"$0\" \"$@\"", timeoutS)
+	cmd := exec.CommandContext(cctx, "sh", append([]string{"-c", sh}, args...)...)
 	var out bytes.Buffer
 	cmd.Stdout = &out
 	cmd.Stderr = &out
@@ -153,6 +158,10 @@ func (d *Discharger) runSolver(ctx context.Context, s SolverCfg, file string, ti
 		return "cancelled", txt, el
 	}
 	if cctx.Err() != nil {
+		return "timeout", txt, el
+	}
+	if ps := cmd.ProcessState; ps != nil && !ps.Success() && fl == "" {
+		// killed by the CPU limit (SIGXCPU/SIGKILL) before printing anything
 		return "timeout", txt, el
 	}
 	return "error", txt, el
@@ -186,20 +195,24 @@ func (d *Discharger) Discharge(o *Obligation) *SolveResult {
 		solver, status, out string
 		secs                float64
 	}
+	attempt := 0
+RETRY:
+	seed := d.Seed + 17*attempt
 	ch := make(chan ans, len(solvers))
 	order := make([]SolverCfg, len(solvers))
 	for i := range solvers {
 		order[i] = solvers[(i+d.Seed)%len(solvers)]
 	}
-	timeout := d.TimeoutS
-	if o.Kind == "cover" || o.Canary || o.Case != "" {
+	timeout := d.TimeoutS << attempt
+	quickOnly := o.Kind == "cover" || o.Canary || o.Case != ""
+	if quickOnly {
 		// satisfiability checks and canaries: a quick answer or none
 		timeout = 3
 	}
 	for _, s := range order {
 		s := s
 		go func() {
-			st, out, secs := d.runSolver(ctx, s, file, timeout)
+			st, out, secs := d.runSolver(ctx, s, file, timeout, seed)
 			ch <- ans{s.Name, st, out, secs}
 		}()
 	}
@@ -232,6 +245,13 @@ func (d *Discharger) Discharge(o *Obligation) *SolveResult {
 		}
 		res.Output = truncate(definite.out, 4000)
 		return res
+	}
+	if !quickOnly && attempt == 0 {
+		// no solver decided it: one more round with another random seed and twice the budget before
+		// calling it undecided (solver luck must not turn a proved obligation into an undecided one)
+		attempt++
+		res.Retried = true
+		goto RETRY
 	}
 	res.Status = "unknown"
 	for _, v := range res.Answers {
